@@ -128,6 +128,9 @@ func c09EnvCode(e *record.Envelope) int {
 	if e == nil {
 		return -1
 	}
+	if c, ok := c09U.envPtr[e]; ok { // the memory book hands back the very envelope it was given
+		return c
+	}
 	b, err := e.Marshal()
 	if err != nil {
 		return -2
@@ -146,6 +149,7 @@ type c09Inst struct {
 	dsb   *dsAddrBook
 	m     [2]c09Model // reference model followed per store: [0] memory book, [1] datastore book
 	obs   [2]c09Obs   // observation after the last operation
+	fresh bool        // obs describes the current state
 	n     int         // operations applied
 	dead  string      // harness/infrastructure problem (never a violation)
 }
@@ -160,7 +164,11 @@ func c09New(cfg c09Cfg) *c09Inst {
 		return in
 	}
 	in.dsb = ab
-	in.observe()
+	// what empty books answer (asserted for real by the first operation's checks)
+	for s := range in.obs {
+		in.obs[s].rec = [c09NP]int{-1, -1}
+	}
+	in.fresh = true
 	return in
 }
 
@@ -266,6 +274,61 @@ func (in *c09Inst) observe() {
 	om.peers, om.podd = c09PeerSet(in.mem.PeersWithAddrs())
 	od.peers, od.podd = c09PeerSet(in.dsb.PeersWithAddrs())
 	in.obs = [2]c09Obs{om, od}
+	in.fresh = true
+}
+
+// observeAddrs asks only Addrs(p) (to resolve an eviction tie while a history prefix is replayed).
+func (in *c09Inst) observeAddrs(p int) (m, d uint8) {
+	id := c09U.peers[p]
+	m, _, _ = c09AddrSet(in.mem.Addrs(id))
+	if c := in.cloneDS(); c != nil {
+		d, _, _ = c09AddrSet(c.Addrs(id))
+		c.Close()
+	}
+	return
+}
+
+// uncollected reports whether book s still holds, for peer p, something the eager model no longer has: an
+// expired entry, a signed record although p has no live address, or (datastore book) a cached copy that differs
+// from the stored record. Only used to classify violations ("interaction with an expired-but-uncollected entry").
+func (in *c09Inst) uncollected(s, p int) bool {
+	id := c09U.peers[p]
+	now := in.clk.now
+	if s == 0 {
+		snap := in.mem.VerifSnapshot()
+		for _, e := range snap.Entries {
+			if e.Peer == id && !e.Expiry.After(now) {
+				return true
+			}
+		}
+		for _, r := range snap.Records {
+			if r.Peer == id && !in.m[0].rec[p].ok {
+				return true
+			}
+		}
+		return false
+	}
+	ghost := func(r *pb.AddrBookRecord) bool {
+		for _, a := range r.Addrs {
+			if a.Expiry <= now.Unix() {
+				return true
+			}
+		}
+		return r.CertifiedRecord != nil && !in.m[1].rec[p].ok
+	}
+	stored := &pb.AddrBookRecord{}
+	key := addrBookBase.ChildString(b32.RawStdEncoding.EncodeToString([]byte(id)))
+	if data, err := in.store.Get(context.Background(), key); err == nil {
+		if proto.Unmarshal(data, stored) == nil && ghost(stored) {
+			return true
+		}
+	}
+	if v, ok := in.dsb.cache.Peek(id); ok {
+		if ghost(v.AddrBookRecord) || c09RecStr(v.AddrBookRecord, now.Unix()) != c09RecStr(stored, now.Unix()) {
+			return true
+		}
+	}
+	return false
 }
 
 // ---------- white-box snapshots (canonical: sorted, times relative to now) ----------
